@@ -169,6 +169,36 @@ func runCheck(prop, tier string) int {
 			}
 		}
 	}
+	// ---- raw SMT lemmas (bit-vector facts that do not fit the contract language)
+	rawLemmas, _ := filepath.Glob("/verif/contracts/lemmas/*.smt2")
+	sort.Strings(rawLemmas)
+	for _, lf := range rawLemmas {
+		data, err := os.ReadFile(lf)
+		if err != nil {
+			continue
+		}
+		first := strings.SplitN(string(data), "\n", 2)[0]
+		if !strings.HasPrefix(first, "; props ") || !hasProp(strings.Fields(strings.TrimPrefix(first, "; props ")), prop) {
+			continue
+		}
+		t1 := time.Now()
+		body := string(data)
+		st, sv, out, _ := race(body, timeout*3, filepath.Base(lf), []int{0, 1})
+		status := "unknown"
+		if st == "unsat" {
+			status = "proved"
+		} else if st == "sat" {
+			status = "refuted"
+		}
+		desc := ""
+		for _, l := range strings.Split(body, "\n") {
+			if strings.HasPrefix(l, "; lemma") {
+				desc = strings.TrimPrefix(l, "; ")
+			}
+		}
+		rec := oblRecord{Name: "lemma/" + strings.TrimSuffix(filepath.Base(lf), ".smt2"), Kind: "lemma", Tag: "L", Text: desc, Status: status, Backend: sv, Ms: time.Since(t1).Milliseconds()}
+		pr.add(rec, &SolveResult{Status: status, Solver: sv, Output: out, Model: out, Ms: rec.Ms}, nil)
+	}
 	// ---- K and F obligations
 	for _, sf := range e.specs {
 		for _, k := range sf.KObls {
